@@ -38,9 +38,17 @@ class Exec:
         self.EvA, self.EvB, Src, SubSrc = _classes()
         self.inst = {"1": Src(), "2": SubSrc()}
         self.workers = {}
+        # the dispatching side holds on to the bound signals it obtained first; subscribers read the attribute afresh every time
+        self.held = {ch: getattr(self.inst[ch[0]], ch[1]) for ch in ("1a", "1b", "2a")}
 
     def chan(self, ch):
         return getattr(self.inst[ch[0]], ch[1])
+
+    def identity_broken(self):
+        for ch, sig in self.held.items():
+            if getattr(self.inst[ch[0]], ch[1]) is not sig:
+                return ch
+        return None
 
     def ch_of(self, ev):
         src, topic = getattr(ev, "source", None), getattr(ev, "topic", "<unset>")
@@ -100,7 +108,7 @@ class Exec:
             with warnings.catch_warnings(record=True) as wl:
                 warnings.simplefilter("always")
                 try:
-                    self.chan(ch).dispatch(cls(obs.get("n", 0)))
+                    self.held[ch].dispatch(cls(obs.get("n", 0)))
                 except TypeError:
                     res = "TypeError"
                 except Exception as e:  # noqa: BLE001
@@ -126,7 +134,9 @@ class Exec:
     def check(self, obs, to_enc, got):
         subs = to_enc[0]
         a = obs["a"]
-        cross = False
+        changed = self.identity_broken()
+        if changed:
+            return "bound-signal-identity", f"{changed} always the same bound signal", f"{changed} is another object after {a}", {"C11"}
         if a == "Dispatch":
             exp = (obs["r"], len(obs["warns"]))
             if got[0] != exp[0]:
@@ -272,6 +282,24 @@ def identity_cases():
             weak.append({"variant": variant, "dead": r() is None})
     vclock.run(wmain, backend="asyncio", seed=0)
     cases.append({"id": "weak", "kind": "weak", "rows": weak})
+
+    # the same bound signal before, during and after a complete subscribe / unsubscribe history
+    cyc = []
+
+    async def cmain():
+        from asphalt.core import stream_events as se
+        EvA_, EvB_, Src_, Sub_ = _classes()
+        for label, inst in (("own", Src_()), ("inherited", Sub_())):
+            first = inst.a
+            async with se([inst.a, inst.b]):
+                during = inst.a
+            after = inst.a
+            async with inst.a.stream_events():
+                pass
+            again = inst.a
+            cyc.append({"variant": label, "dead": first is during and during is after and after is again})
+    vclock.run(cmain, backend="asyncio", seed=0)
+    cases.append({"id": "cycle", "kind": "weak", "rows": cyc})
     return cases
 
 
